@@ -3,7 +3,9 @@ package network
 import (
 	"encoding/json"
 	"fmt"
+	"math/rand/v2"
 	"strings"
+	"time"
 
 	"gonum.org/v1/gonum/graph"
 	"gonum.org/v1/gonum/graph/community"
@@ -29,6 +31,7 @@ type qCase struct {
 	Wtd   bool       `json:"wtd"`
 	Edges [][3]int64 `json:"edges"`
 	Qs    []qRec     `json:"qs"`
+	NegP  bool       `json:"negpanic"` // the graph with every weight negated must be refused
 }
 
 // replayQ: community.Q on every partition x resolution the specification printed.
@@ -60,6 +63,18 @@ func replayQ(in *core.Lines, args []string, seed int64, sum *core.Summary) error
 		for _, wt := range kinds {
 			g := b.build(wt)
 			kind := strings.TrimPrefix(fmt.Sprintf("%T", g), "*")
+			if wt && c.NegP {
+				gn := (&builder{c: &nc, ids: ids, neg: true}).build(true)
+				o := core.Call(func() { community.Q(gn, nil, 1) })
+				if !o.Panicked || o.Runtime {
+					sum.Fail("community:Q:negative-weight", fmt.Sprintf("[%s] Q did not refuse negative edge weights (%s); edges=%v negated", kind, o.Text, c.Edges), raw)
+				}
+				o = core.CallTimeout(20*time.Second, func() { community.Modularize(gn, 1, rand.NewPCG(uint64(seed), 7)) })
+				if !o.Panicked || o.Runtime || o.Hung {
+					sum.Fail("community:Modularize:negative-weight", fmt.Sprintf("[%s] Modularize did not refuse negative edge weights (%s); edges=%v negated", kind, o.Text, c.Edges), raw)
+				}
+				sum.Count("negative_weight_refusals", 2)
+			}
 			for _, q := range c.Qs {
 				// communities in label order, members in model order
 				byLabel := map[int64][]graph.Node{}
